@@ -1,7 +1,13 @@
+#[cfg(not(crux_verif))]
+use std::sync::Mutex;
 use std::{
-    sync::{Arc, Mutex},
+    sync::Arc,
     task::{Poll, Waker},
 };
+
+// same mutex, except that a simulated thread yields to its controller instead of sleeping
+#[cfg(crux_verif)]
+use crate::verif::Mutex;
 
 use futures::Stream;
 
